@@ -177,7 +177,7 @@ theorem pollNormal_sdTimer (c : Cfg) (i : In) (s : St) (o : List Out) :
 
 theorem pollOnce_sdStep (c : Cfg) (i : In) (s : St) (o : List Out) :
     (pollOnce c i s o).sat (SdStep c i s) := by
-  unfold pollOnce
+  unfold pollOnce pollModes
   have h0 : SdStep c i s (pollHeadTimer c i (pollGraceful i s)) := by
     apply SdStep.of_eq
     unfold pollHeadTimer
@@ -273,7 +273,7 @@ theorem normalTail_armed (c : Cfg) (s : St) (o : List Out) : (normalTail c s o).
 
 theorem pollOnce_armed (c : Cfg) (i : In) (s : St) (o : List Out) (hD : c.D ≠ 0) :
     (pollOnce c i s o).satR Armed := by
-  unfold pollOnce
+  unfold pollOnce pollModes
   simp only
   split
   · unfold Step.satR Armed; simp
